@@ -8,12 +8,12 @@ def radii(rep, M, rid):
     c19.r19_3(rep, M, rid)
 
 
-def dimensionality(rep, M, rid):
-    c09.r09_1(rep, M, rid)
+def dimensionality(rep, M, rid, caller_wraps=False):
+    c09.r09_1(rep, M, rid, caller_wraps=caller_wraps)
     c09.r09_2(rep, M, rid)
     c09.r09_3(rep, M, rid)
     c09.r09_6(rep, M, rid)
-    c01.r01_8_components(rep, M, rid)
+    c01.r01_8_components(rep, M, rid, shortcut=False)
 
 
 def distances(rep, M, rid):
@@ -48,7 +48,7 @@ def normal_form(rep, M, rid, ranking=True):
     SR.orbit_source(rep, M, rid)
 
 
-def spglib_boundary(rep, M, rid, back=True, order=False):
+def spglib_boundary(rep, M, rid, back=True, order=False, tolerance=True):
     """what goes into spglib is the analysed structure unmodified (cell, scaled positions, numbers of one object), the analyzer's tolerance
     reaches it, and what comes back (std_lattice, std_positions, std_types) is used without a change of convention"""
     from . import c05
@@ -57,7 +57,8 @@ def spglib_boundary(rep, M, rid, back=True, order=False):
     if back:
         # how the standardised lattice is turned into a system matters only where the geometry of the returned cells is observed
         c05.r05_5b(rep, M, rid)
-    SR.tolerance_reaches_spglib(rep, M, rid)
+    if tolerance:
+        SR.tolerance_reaches_spglib(rep, M, rid)
 
 
 def normalizer_tables(rep, T, rid, perm=True):
